@@ -148,6 +148,11 @@ func (c *channel) enqueue(req request, responseChan chan<- response, streaming b
 	case <-c.parentCtx.Done():
 		c.routeResponse(req.msg.Metadata.MessageID, response{nid: c.node.ID(), err: fmt.Errorf("channel closed")})
 		return
+	case <-req.ctx.Done():
+		// don't keep the caller waiting for a busy sender once its context has ended;
+		// the caller notices the end of its context itself.
+		c.deleteRouter(req.msg.Metadata.MessageID)
+		return
 	case c.sendQ <- req:
 	}
 }
